@@ -254,6 +254,10 @@ fn dump_exec(ex: &Ex, o: &mut String) {
                 }
             }
         }
+        o.push_str(") (ur");
+        for t in &p.unreported_awaits {
+            let _ = write!(o, " {}", t);
+        }
         let _ = write!(o, ") (pers {}))", if p.persistent { 1 } else { 0 });
     }
     o.push_str("))");
@@ -753,6 +757,16 @@ impl Sim {
                 // worker.rs update_await_results (539) / notify_result (564)
                 let e = self.owner[&awaiter];
                 let mut any = false;
+                // worker.rs update_await_results (8388832): the state of every process in the answer
+                // is known now, completed or not
+                {
+                    let reported: Vec<ProcessId> = results.iter().map(|(t, _)| *t).collect();
+                    self.ex[e].notify_await_report(awaiter, &reported);
+                    let ts: Vec<String> = reported.iter().map(|t| t.to_string()).collect();
+                    let o = format!("(report {} {} (t {}))", e, awaiter, ts.join(" "));
+                    self.emit(&o, e);
+                    self.check(e, &Suspects::default(), "notify_await_report")?;
+                }
                 for (awaited, r) in results {
                     let Some(r) = r else { continue };
                     any = true;
